@@ -110,6 +110,11 @@ func newSimWith(seed int64, scratch string, profile string, nvals, nusers int, t
 		// flavour: a reward per power beyond 64 bits (the parameter is a 256-bit number; rewards are too)
 		g.Params.RewardPerPower = new(big.Int).Add(new(big.Int).Lsh(big.NewInt(1), uint(62+rng.Intn(5))), big.NewInt(int64(rng.Intn(1000)))).String()
 	}
+	if seed%11 == 4 && nvals == 0 {
+		// flavour: a chain without fees (gas price 0 is a legal parameter value): nobody's balance moves
+		// when a transaction only pays for gas, so nonces are the only trace a sender leaves
+		g.Params.GasPrice = "0"
+	}
 	if seed%7 == 3 && nvals == 0 {
 		// flavour: the gas price of the public network (250 Gfons) and its minimum gas; with gas limits of
 		// 10^8 and more the fee gas x price no longer fits 64 bits (it is a 256-bit amount everywhere)
@@ -1007,6 +1012,19 @@ func (s *Sim) genEvmTx(deploy bool) *TxSpec {
 		t3.Data, t3.Gas, t3.Note = word(y.Addr), uint64(150000+r.Intn(200000)), "mixed-paths-3-call"
 		s.pending = append(s.pending, t2, t3)
 		return t1
+	}
+	if r.Intn(9) == 0 {
+		// a call straight to a precompiled contract (addresses 1..9) with short, odd-sized or empty input
+		pc := make([]byte, 20)
+		pc[19] = byte(1 + r.Intn(9))
+		s.watchAddr(pc)
+		t := s.baseTx(6, from, pc)
+		t.Data = make([]byte, []int{0, 1, 4, 31, 32, 33, 63, 64, 65, 100, 127, 128, 129, 200}[r.Intn(14)])
+		for i := range t.Data {
+			t.Data[i] = byte(r.Intn(256))
+		}
+		t.Gas, t.Note = uint64(100000+r.Intn(200000)), fmt.Sprintf("evm-call-precompile-%d", pc[19])
+		return t
 	}
 	switch r.Intn(5) {
 	case 0, 1:
